@@ -380,9 +380,12 @@ func TestC18_Random(t *testing.T) {
 
 // TestC18_Lifecycle: the registry is idempotent across the configuration life cycle too. rapid
 // draws a history over {register an accepted name (new or seen), register a rejected name,
-// Refresh with a valid configuration, Refresh with an invalid one, Destroy}; after every step a
-// name registered earlier still yields the tag object handed out first, and at generated points
-// the list of all tags is exactly the set of names registered.
+// Refresh with a valid configuration, Refresh with an invalid one, Destroy}. Registration is an
+// initialisation-time operation (the library refuses it between a Refresh and the next Destroy;
+// that refusal is property C16's business), so names are registered only while no Refresh is
+// outstanding; whenever that is the case, each name registered earlier still yields the tag object
+// handed out first, and at generated points the list of all tags is exactly the set of names
+// registered - whatever Refresh/Destroy cycles lie in between.
 // (Runs last: the other tests of this package need a process that has not been configured.)
 func TestC18_Lifecycle(t *testing.T) {
 	if vk.ReplayCase() != "" {
@@ -393,9 +396,14 @@ func TestC18_Lifecycle(t *testing.T) {
 	rapid.Check(t, func(t *rapid.T) {
 		var mine []string // names this history registered, in order
 		var ops []string
-		configured := false
+		locked := false // a Refresh (successful or not) since the last Destroy
+		cycles := 0
+		log.Destroy()
 		t.Repeat(map[string]func(*rapid.T){
 			"register": func(t *rapid.T) {
+				if locked {
+					t.Skip("registration is refused until Destroy")
+				}
 				var name string
 				if len(mine) > 0 && rapid.IntRange(0, 2).Draw(t, "again") == 0 {
 					name = rapid.SampledFrom(mine).Draw(t, "seen")
@@ -409,9 +417,15 @@ func TestC18_Lifecycle(t *testing.T) {
 				vk.Eval()
 				if checkName(t, name) {
 					mine = append(mine, name)
+					if cycles > 0 {
+						vk.NonTrivial(strings.Join(ops, ";"))
+					}
 				}
 			},
 			"registerBad": func(t *rapid.T) {
+				if locked {
+					t.Skip("registration is refused until Destroy")
+				}
 				name := rapid.SampledFrom([]string{"c18l__x", "C18l_x", "c18l_a_b_c_d_e", "c18l_", "__c18l", "c18l-x"}).Draw(t, "bad")
 				ops = append(ops, "register "+name)
 				vk.Eval()
@@ -419,27 +433,29 @@ func TestC18_Lifecycle(t *testing.T) {
 			},
 			"refreshValid": func(t *rapid.T) {
 				ops = append(ops, "refresh-valid")
-				if err := log.Refresh(map[string]string{"appender.d.type": "Discard"}); err == nil {
-					configured = true
-				}
+				_ = log.Refresh(map[string]string{"appender.d.type": "Discard"})
+				locked = true
 			},
 			"refreshInvalid": func(t *rapid.T) {
 				ops = append(ops, "refresh-invalid")
 				_ = log.Refresh(map[string]string{"logger.lt.type": "Logger"})
+				locked = true
 			},
 			"destroy": func(t *rapid.T) {
 				ops = append(ops, "destroy")
 				log.Destroy()
-				if configured {
-					vk.NonTrivial(strings.Join(ops, ";"))
+				if locked {
+					cycles++
 				}
-				configured = false
+				locked = false
 			},
 			"": func(t *rapid.T) {
-				for _, n := range mine {
-					var again *log.Tag
-					if p := vk.Catch(func() { again = log.RegisterTag(n) }); p != nil || again != model[n] {
-						failCase(t, n, fmt.Sprintf("after the history [%s] registering an accepted name again: panic=%v, same tag as first handed out=%v", strings.Join(ops, "; "), p, again == model[n]))
+				if !locked {
+					for _, n := range mine {
+						var again *log.Tag
+						if p := vk.Catch(func() { again = log.RegisterTag(n) }); p != nil || again != model[n] {
+							failCase(t, n, fmt.Sprintf("after the history [%s] registering an accepted name again: panic=%v, same tag as first handed out=%v", strings.Join(ops, "; "), p, again == model[n]))
+						}
 					}
 				}
 				if len(ops)%7 == 0 {
